@@ -1,15 +1,60 @@
 (** C11 - events and Python objects convert into each other without loss.
-    events_to_obj / obj_to_events are NOT modelled; this property is decided on the implementation by the oracle
-    (by-product == rebuilt object, both turn back into the decoded events incl. value classes, re-encoding gives
-    the input) on generated well-formed encodings of every type, with the decoder's by-product object tied to
-    the model by correspondence.  PROVED (field level only): the value stored in the by-product object of a
-    primitive field is the value of the event emitted for it.
+    PROVED (obj_to_events, common/object.py, modelled in Model/Object.v; every structure type whose classes have
+    distinct attribute names - all of the regenerated tables -, commands, responses; EVERY input strict decoding
+    accepts): the object the decoder returns, turned back into events, is exactly the decoded event list - same
+    length, paths, declared types and values, structure / list / placeholder events included; an absent optional part
+    stays absent (the empty payload of a size-prefixed structure becomes its one placeholder event, union members
+    without payload, the session area / parameterSize of a message without sessions and everything after the response
+    code of a failed response produce nothing).  Hence (with C02) re-encoding the object yields the input bytes.
+    ([Proofs/ObjEv.v]: induction over the layout descriptors on completed strict runs, then field by field through
+    the two message decoders.)
+    NOT PROVED: events_to_obj (the path trie [_events_to_dict] and the class lookup of [_to_obj]) is not modelled:
+    "the object rebuilt from the events equals the decoder's object" is decided on the implementation by the oracle
+    (by-product == rebuilt with Python ==, both turn back into the decoded events incl. value classes, re-encoding gives
+    the input) on generated well-formed encodings of every type; the decoder's by-product object and the model's
+    obj_to_events of it are tied to the implementation by correspondence.
     Statement file: theorem statements, [exact], Print Assumptions only. *)
 From Coq Require Import ZArith List String Bool.
-From TV Require Import Layout.Types Base.Bytes Model.Monad Model.Ints Model.Decoder Proofs.OpLemmas.
+From TV Require Import Layout.Types gen.Tables Base.Bytes Model.Monad Model.Ints Model.Decoder Model.Message Model.Pump Model.Object
+  Proofs.OpLemmas Proofs.ObjEv.
 Import ListNotations.
 Open Scope Z_scope.
 
+(** every root but the stream, every accepted input: obj_to_events (returned object) = the decoded events *)
+Theorem C11_returned_object_turns_back_into_the_decoded_events :
+  forall T r bs evs, msg_named T = true -> root_named T r -> is_stream_root r = false ->
+    decode T true r bs = (evs, OAccepted) ->
+    exists v, decode_obj T true r bs = Some v /\ map fst evs = map Ev (obj_to_events T r v).
+Proof. exact decoded_object_reproduces_events. Qed.
+Print Assumptions C11_returned_object_turns_back_into_the_decoded_events.
+
+(** the same at the level of the decoder functions, for every state: any structure type ... *)
+Theorem C11_structure_types :
+  forall T t, named_ty t = true -> forall sel pa s tr s' a, dec_ty T true t pa sel false s = (tr, s', Ok a) ->
+    exists v, a = Some v /\ evs_of tr = oe_ty T t v pa.
+Proof. exact (fun T t H sel => proj1 (obj_all T) t H sel). Qed.
+Print Assumptions C11_structure_types.
+
+(** ... commands and responses *)
+Theorem C11_commands :
+  forall T, msg_named T = true -> forall pa s tr s' res, dec_command T true pa s = (tr, s', Ok res) ->
+    evs_of tr = oe_command T (cr_obj res) pa.
+Proof. exact command_obj. Qed.
+Print Assumptions C11_commands.
+
+Theorem C11_responses :
+  forall T, msg_named T = true -> forall pa cc enc s tr s' v, dec_response T true pa cc enc s = (tr, s', Ok v) ->
+    evs_of tr = oe_response T cc v pa.
+Proof. exact response_obj. Qed.
+Print Assumptions C11_responses.
+
+(** the premises hold of the regenerated tables: attribute names are distinct within every class *)
+Theorem C11_tables_named :
+  msg_named Tables.T && forallb (fun nt => named_ty (snd nt)) (types Tables.T) = true.
+Proof. vm_compute. reflexivity. Qed.
+Print Assumptions C11_tables_named.
+
+(** field level: the value stored in the object of a primitive field is the value of the event emitted for it *)
 Theorem C11_field_object_matches_event_partial :
   forall p pa s tr s' r, dec_prim true p pa s = (tr, s', Ok r) ->
     exists bs, tr = map Rd bs ++ [Ev (mkEvent pa (TyN (pname p)) (Some (from_bytes (psigned p) bs)))] /\
@@ -19,3 +64,21 @@ Proof.
   exists bs. split; assumption.
 Qed.
 Print Assumptions C11_field_object_matches_event_partial.
+
+(** non-vacuity: TPM2_GetRandom(32) is accepted; its object turns back into its 7 events; an empty TPM2B_PUBLIC keeps
+    its absent payload as one placeholder event *)
+Example C11_example :
+  (let bs := [128;1;0;0;0;12;0;0;1;123;0;32] in
+   snd (decode Tables.T true RCommand bs) = OAccepted /\
+   match decode_obj Tables.T true RCommand bs with
+   | Some v => map Ev (obj_to_events Tables.T RCommand v) = map fst (fst (decode Tables.T true RCommand bs)) /\ List.length (obj_to_events Tables.T RCommand v) = 7%nat
+   | None => False
+   end) /\
+  match lookupS "TPM2B_PUBLIC" (types Tables.T) with
+  | Some t => match decode_obj Tables.T true (RType t) [0;0] with
+              | Some v => List.length (obj_to_events Tables.T (RType t) v) = 3%nat
+              | None => False
+              end
+  | None => False
+  end.
+Proof. vm_compute. repeat split. Qed.
